@@ -1007,3 +1007,79 @@ def all_trace(run, model, rule="C06.all-trace"):
                     if kws.get("target") != ("attr", comp, "target") or kws.get("iter") != ("attr", comp, "iter"):
                         bad = (n.stmt, "the generated loop does not take target and iterable from the clause being translated")
     run.check(bad is None, rule, fi.qual + ":filters", "per clause: filters wrapped innermost-last (reversed(ifs)), then the clause's `for` around them", bad[1] if bad else "", fi.loc(bad[0]) if bad else fi.loc(), None, "filters")
+
+
+def dispatch_closed(run, model, rule="C07.dispatch-closed"):
+    """A node handed to ``self.visit`` under the knowledge ``isinstance(<node>, ast.K)`` needs a ``visit_K`` handler.
+
+    ``ast.NodeVisitor.visit`` dispatches on the class name; this visitor's ``generic_visit`` raises
+    NotImplementedError, which turns the violation into an internal error.  The rule also covers the star arguments
+    of calls, which the property names among the supported forms: ``f(*xs)`` must be re-computable, and a starred
+    value that is not known (PLACEHOLDER) must not be unpacked.
+    """
+    from ..guards import GuardGraph
+
+    count = 0
+    for fi in model.methods("_recompute", "Visitor"):
+        if not fi.name.startswith("visit_"):
+            continue
+        flow = get_flow(model, fi)
+        gg = None
+        for n in flow.cfg.nodes:
+            for call, c, a in calls_in(n):
+                if not (isinstance(call.func, ast.Attribute) and call.func.attr == "visit" and strip_sites(flow.term(call.func.value, n)) == ("param", "self")):
+                    continue
+                arg = call.args[0] if call.args else ([kw.value for kw in call.keywords if kw.arg == "node"] or [None])[0]
+                if arg is None:
+                    continue
+                at = strip_sites(flow.term(arg, n))
+                gg = gg or GuardGraph(flow)
+                for (nid, k), (kn, atoms) in gg.edge_facts.items():
+                    for atom, pol in kn:
+                        ts = strip_sites(atom)
+                        if pol and ts[0] == "call" and ts[1] == ("builtin", "isinstance") and len(ts[2]) == 2 and ts[2][0] == at and ts[2][1][0] == "attr" and ts[2][1][1] == ("module", "ast"):
+                            if gg.necessary([flow.cfg.entry], [n.id], (atom, pol)):
+                                cls = ts[2][1][2]
+                                pycls = getattr(ast, cls, None)
+                                if pycls is None or pycls is ast.AST or (pycls in ast.AST.__subclasses__() and pycls.__subclasses__()):
+                                    continue  # an abstract category (ast.AST, ast.expr, ...): nothing is dispatched on it
+                                count += 1
+                                h = model.method("_recompute", "Visitor", "visit_" + cls, required=False)
+                                run.check(h is not None, rule, "%s:visit(%s) as ast.%s" % (fi.qual, src_of(arg, 30), cls), "a handler for ast.%s exists" % cls, "a node known to be an ast.%s is handed to self.visit, but there is no visit_%s: generic_visit raises NotImplementedError and the violation is replaced by `RuntimeError: Failed to recompute ...` (e.g. a condition calling f(*xs))" % (cls, cls), fi.loc(n), None, first_line(n.stmt))
+    # star arguments of a call: some path under isinstance(arg, ast.Starred) extends the positional list with the
+    # re-computed iterable, and only when that value is known
+    fi = model.method("_recompute", "Visitor", "visit_Call")
+    flow = get_flow(model, fi)
+    run.saw(flow)
+    heads = [h for h in flow.cfg.nodes if h.kind == "next" and any(p.kind == "iter" and strip_sites(flow.term(p.ast, p)) == ("attr", NODE, "args") for k, p in h.pred)]
+    if len(heads) != 1:
+        raise AnalysisError("%s: the loop over node.args was not found" % fi.qual)
+    h = heads[0]
+    EL = ("elem", ("attr", NODE, "args"))
+    start = [t for k, t in h.succ if k == "T"][0]
+    ps = tables.paths(flow, start, {h.id}, stop_at_loops=True)
+    for known in (True, False):
+        def ev(t, known=known):
+            ts = strip_sites(t)
+            if ts[0] == "call" and ts[1] == ("builtin", "isinstance") and len(ts[2]) == 2 and ts[2][0] == EL:
+                return ts[2][1] == ("attr", ("module", "ast"), "Starred")
+            v = _placeholder_false(t)
+            if v is not None:
+                return v if known else (not v)
+            return None
+
+        feas = [p for p in ps if tables.feasible(p, ev) and not (p.outcome and p.outcome[0] == "raise")]
+        ext = []
+        for p in feas:
+            for ct, n in p.calls:
+                cs = strip_sites(ct)
+                if cs[0] == "call" and cs[1][0] == "attr" and cs[1][2] == "extend" and cs[2]:
+                    ext.append(cs[2][0])
+        construct = "%s[star argument, value %s]" % (fi.qual, "known" if known else "not known (placeholder)")
+        count += 1
+        if known:
+            ok = bool(feas) and all(any(_visit_of(x) in (("attr", EL, "value"), EL) for x in ext) for _ in [0]) and bool(ext)
+            run.check(ok, rule, construct, "the positional list is extended with the re-computed iterable", "a star argument is not unpacked into the positional arguments of the re-computed call", fi.loc(h), None, "star-known")
+        else:
+            run.check(not ext, rule, construct, "a starred value that is not known is not unpacked (the call is left out)", "the placeholder standing for an unknown value is unpacked like an iterable (TypeError inside message generation)", fi.loc(h), None, "star-unknown")
+    return count
